@@ -63,6 +63,7 @@ func (w *Worker) RunCloneCase(f1 int, fields []schemaField, property string, tho
 	res := &SkelResult{Skeleton: name}
 	defer func() { res.Elapsed = time.Since(t0) }()
 	m := w.NewMachine()
+	m.TrackShared = true
 	res.Stats = m.Stats
 	schemaT := m.P.NamedType("Schema")
 	titleIdx := sx.FieldIndex(schemaT, "Title")
@@ -87,6 +88,7 @@ func (w *Worker) RunCloneCase(f1 int, fields []schemaField, property string, tho
 		s[titleIdx] = title
 		*cell = s
 		counter++
+		m.MarkShared(cell) // the original tree is the caller's: CloneSchemas must not write to it
 		return cell
 	}
 	populate := func(m *sx.Machine, parent *sx.Value, f schemaField, shape int, label string) []*sx.Value {
@@ -113,6 +115,9 @@ func (w *Worker) RunCloneCase(f1 int, fields []schemaField, property string, tho
 				lst = append(lst, k)
 				kids = append(kids, k)
 			}
+			for i := range lst {
+				m.MarkShared(&lst[i])
+			}
 			ps[f.idx] = lst
 		case "map":
 			om := sx.NewOMap(types.Typ[types.String])
@@ -121,6 +126,7 @@ func (w *Worker) RunCloneCase(f1 int, fields []schemaField, property string, tho
 				om.Set(m, fmt.Sprintf("k%d", i), k)
 				kids = append(kids, k)
 			}
+			om.Shared = true
 			ps[f.idx] = om
 		}
 		return kids
@@ -172,6 +178,17 @@ func (w *Worker) RunCloneCase(f1 int, fields []schemaField, property string, tho
 			return
 		}
 		sh, _ := m.Scratch["shape"].(cloneShape)
+		if len(r.SharedWrites) > 0 {
+			res.VerdictSat++
+			if ok, detail := nativeCloneMutatesOriginal(sh, fields); ok {
+				if len(res.Findings) < 3 {
+					res.Findings = append(res.Findings, Finding{Property: property, Kind: "clone-writes-original", Skeleton: name, Family: "F-clone", Doc: describe(sh), Expected: "CloneSchemas leaves the original tree unchanged", Observed: detail + "; engine: " + r.SharedWrites[0]})
+				}
+			} else {
+				res.EngineErrors = append(res.EngineErrors, "engine reports a write into the original during CloneSchemas ("+r.SharedWrites[0]+") that the native deep comparison does not see: "+describe(sh))
+			}
+			return
+		}
 		mkF := func(kind, obs string) {
 			res.VerdictSat++
 			f := Finding{Property: property, Kind: kind, Skeleton: name, Family: "F-clone", Doc: describe(sh), Expected: "an equal tree that shares no Schema object with the original", Observed: obs}
@@ -333,12 +350,8 @@ func diffSchemas(m *sx.Machine, a, b *sx.Value, fields []schemaField, schemaT ty
 
 // nativeCloneCheck builds the same tree natively and checks CloneSchemas on it;
 // ok is true when the native clone is wrong (shares a Schema or differs).
-func nativeCloneCheck(sh cloneShape, fields []schemaField) (bad bool, detail string) {
-	defer func() {
-		if r := recover(); r != nil {
-			bad, detail = true, fmt.Sprintf("panic: %v", r)
-		}
-	}()
+// nativeCloneTree builds, natively, the tree the engine path built.
+func nativeCloneTree(sh cloneShape, fields []schemaField) *jsonschema.Schema {
 	mk := func(title string) *jsonschema.Schema { return &jsonschema.Schema{Title: title} }
 	populate := func(parent *jsonschema.Schema, f schemaField, shape int, label string) []*jsonschema.Schema {
 		fv := reflect.ValueOf(parent).Elem().FieldByName(f.name)
@@ -386,6 +399,32 @@ func nativeCloneCheck(sh cloneShape, fields []schemaField) (bad bool, detail str
 	if sh.Nested >= 0 && len(kids) > 0 {
 		populate(kids[0], fields[sh.Nested], 1, "nested."+fields[sh.Nested].name)
 	}
+	return root
+}
+
+// nativeCloneMutatesOriginal reports whether CloneSchemas changes the tree it is called on.
+func nativeCloneMutatesOriginal(sh cloneShape, fields []schemaField) (bad bool, detail string) {
+	defer func() {
+		if r := recover(); r != nil {
+			bad, detail = true, fmt.Sprintf("panic: %v", r)
+		}
+	}()
+	root := nativeCloneTree(sh, fields)
+	before := DeepDump(root)
+	root.CloneSchemas()
+	if DeepDump(root) != before {
+		return true, "native: the original tree differs after CloneSchemas (deep comparison)"
+	}
+	return false, ""
+}
+
+func nativeCloneCheck(sh cloneShape, fields []schemaField) (bad bool, detail string) {
+	defer func() {
+		if r := recover(); r != nil {
+			bad, detail = true, fmt.Sprintf("panic: %v", r)
+		}
+	}()
+	root := nativeCloneTree(sh, fields)
 	clone := root.CloneSchemas()
 	collect := func(s *jsonschema.Schema) map[*jsonschema.Schema]bool {
 		seen := map[*jsonschema.Schema]bool{}
